@@ -325,7 +325,26 @@ class Check:
                 else:
                     self.stats['direct_fail_other_property'] += 1
 
+    def coqchk(self):
+        """thorough tier: re-check the compiled Properties file and everything it depends on with the
+        independent checker, and record the axioms it lists."""
+        if self.tier != 'thorough' or not getattr(self, 'b', None) or not os.path.exists(os.path.join(build.COQ, 'Properties', self.pid + '.vo')):
+            return None
+        t = time.time()
+        p = subprocess.run('cd %s && timeout 3000 coqchk -silent -o -Q . JV JV.Properties.%s' % (build.COQ, self.pid), shell=True, capture_output=True, text=True)
+        out = p.stdout + p.stderr
+        m = re.search(r'\* Axioms:(.*?)\n\s*\n\* Constants/Inductives relying on type-in-type:(.*?)\n\s*\n\* Constants/Inductives relying on unsafe \(co\)fixpoints:(.*?)\n\s*\n\* Inductives whose positivity is assumed:(.*?)\n', out + '\n', re.S)
+        res = {'exit': p.returncode, 'seconds': round(time.time() - t, 1)}
+        if m:
+            res.update(axioms=' '.join(m.group(1).split()), type_in_type=' '.join(m.group(2).split()), unsafe_fixpoints=' '.join(m.group(3).split()), assumed_positivity=' '.join(m.group(4).split()))
+        if p.returncode != 0 or not m or any(res.get(k) != '<none>' for k in ('type_in_type', 'unsafe_fixpoints', 'assumed_positivity')):
+            self.report_violation({'kind': 'coqchk-failed', 'broken': 'coqchk does not accept Properties/%s.vo' % self.pid, 'log': out[-3000:]}, no_input=True)
+        return res
+
     def finish(self, category='proof', extra_cov=None, assumptions=None):
+        chk = self.coqchk()
+        if chk is not None:
+            extra_cov = dict(extra_cov or {}, coqchk=chk)
         ev = {
             'property_id': self.pid, 'tier': self.tier, 'seed': self.seed, 'level': category,
             'coverage': {
